@@ -120,7 +120,7 @@ def run_value(ctx, name, nr, nc, nrand, **kw):
     for k in ('max_cand_minus_upper', 'max_lower_minus_upper'):
         summary[k] = None if not np.isfinite(summary[k]) else float(summary[k])
     ctx.extra.setdefault('value_runs', {})[name] = summary
-    if summary['pairs'] == 0 and 'subj' in kw.get('bys', 'BySubj').lower() and kw.get('cvcat', 'NoCat') == 'NoCat':
+    if summary['pairs'] == 0 and 'subj' in kw.get('bys', 'BySubj').lower():
         raise MachineryError(f'{name}: no (stack, candidate) pair was emitted')
     return summary
 
@@ -252,7 +252,7 @@ def run_traces(ctx, ntr):
             raise MachineryError(f'recorder produced a trace the specification cannot step through: {meta[idx]} {d}')
         api = traces[idx]['hdr']['api']
         clause = {'lower-above-upper': 'c', 'candidate-beats-upper': 'a', 'upper-not-exact-rho-a': 'a',
-                  'upper-not-average-of-folds': 'a'}.get(why, 'b')
+                  'upper-not-average-of-folds': 'a', 'upper-deps': 'a'}.get(why, 'b')
         ctx.violation(f'C07/{clause}/trace/{api}/{why}', 'recorded call is not explained by the protocol of the specification',
                       {'seed': meta[idx][0], 'kind': meta[idx][1], 'hdr': traces[idx]['hdr'], 'diag': d,
                        'event': traces[idx]['ev'][d.get('l', 1) - 1] if d.get('l') else None})
@@ -281,14 +281,14 @@ def run(ctx):
         run_value(ctx, 'v_mask_b', 2, 4, nrand, methods='MAll', valmax=2, candmax=2, masks='Mask4b', thin_s=53)
         run_value(ctx, 'v_3x4_mask', 3, 4, nrand, methods='MAll', valmax=1, candmax=2, masks='Mask4a', bys='ByBoth',
                   thin_s=3, thin_g=7)
-        run_value(ctx, 'v_cv_3x4', 3, 4, nrand, methods='MAll', valmax=1, thin_r=2, thin_s=11, cvcat='CvCat34', gens='GensAll',
-                  perml=2)
+        run_value(ctx, 'v_cv_3x4', 3, 4, nrand, methods='MAll', valmax=1, candmax=2, thin_r=2, thin_s=23, cvcat='CvCat34',
+                  gens='GensAll', perml=2)
     else:
         run_value(ctx, 'v_2x3', 2, 3, nrand, methods='MAll', valmax=3, candmax=4, thin_s=7, xforms='XfFew')
         run_value(ctx, 'v_3x3', 3, 3, nrand, methods='MAll', valmax=2, candmax=3, bys='ByBoth', thin_s=11, thin_g=47)
         run_value(ctx, 'v_mask_a', 2, 4, nrand, methods='MAll', valmax=2, candmax=2, masks='Mask4a', thin_s=11)
-        run_value(ctx, 'v_cv_3x4', 3, 4, nrand, methods='MAll', valmax=1, thin_r=5, thin_s=7, cvcat='CvCat34', gens='GensAll',
-                  perml=2)
+        run_value(ctx, 'v_cv_3x4', 3, 4, nrand, methods='MAll', valmax=1, candmax=1, thin_r=5, thin_s=7, cvcat='CvCat34',
+                  gens='GensAll', perml=2)
     ctx.exhaustive = thorough
     if thorough:
         run_proto(ctx, 'p_3x4', 3, 4, gens='GensAll', variants='Var13', kmax=3)
